@@ -7,6 +7,11 @@ import (
 	"flag"
 	"fmt"
 	"os"
+	"runtime/pprof"
+	"sync/atomic"
+	"time"
+
+	"verifharness/engine"
 )
 
 // Report is the JSON summary every subcommand prints.
@@ -73,6 +78,7 @@ var (
 	fOf    = flag.Int("of", 1, "number of workers")
 	fTier  = flag.String("tier", "quick", "quick|thorough")
 	fProg  = flag.Int("program", -1, "run only this program index (replay)")
+	fHang  = flag.Int("hang", 30, "seconds without progress before a hang is reported")
 )
 
 func main() {
@@ -88,8 +94,51 @@ func main() {
 		os.Exit(2)
 	}
 	rep := newReport(check, *fSeed)
+	go watchdog(rep)
 	fn(rep)
 	rep.write(*fOut)
 }
 
 var checks = map[string]func(*Report){}
+
+// progress is bumped whenever a program starts; the watchdog turns a stall
+// into a reported hang (with goroutine dump) instead of a silent timeout.
+var progress int64
+var currentProgram int64 = -1
+
+func startProgram(i int) bool {
+	if !mine(i) {
+		return false
+	}
+	atomic.StoreInt64(&currentProgram, int64(i))
+	atomic.AddInt64(&progress, 1)
+	return true
+}
+
+func watchdog(rep *Report) {
+	last, since := int64(-1), time.Now()
+	for {
+		time.Sleep(500 * time.Millisecond)
+		p := atomic.LoadInt64(&progress)
+		if p != last {
+			last, since = p, time.Now()
+			continue
+		}
+		if time.Since(since) > time.Duration(*fHang)*time.Second {
+			prog := atomic.LoadInt64(&currentProgram)
+			fmt.Fprintf(os.Stderr, "HANG: no progress for %ds in program %d of check %s seed %d\n", *fHang, prog, rep.Check, rep.Seed)
+			pprof.Lookup("goroutine").WriteTo(os.Stderr, 1)
+			rep.Failures = append(rep.Failures, FailureRec{Prop: "C08", Kind: "hang", Seed: rep.Seed, Program: int(prog),
+				Msg: fmt.Sprintf("operation did not return within %ds (program %d of %s)", *fHang, prog, rep.Check)})
+			if cs := engine.Current; cs != nil {
+				t := cs.Trace.String()
+				rep.Failures[len(rep.Failures)-1].Trace = t
+				if *fTrace != "" {
+					os.WriteFile(*fTrace, []byte(t), 0o644)
+				}
+			}
+			rep.write(*fOut)
+			os.Exit(3)
+		}
+	}
+}
